@@ -89,6 +89,12 @@ __gmp_doprnt_integer (const struct doprnt_funs_t *funs,
   /* the influence of p->prec on mpq is currently undefined */
   zeros = MAX (0, p->prec - slen);
 
+  /* C99 7.19.6.1: for "o" the "#" flag increases the precision "if and only
+     if necessary" to force a leading zero; when the precision already
+     supplies leading zeros no further "0" is to be added */
+  if (p->base == 8 && zeros != 0 && slash == NULL)
+    showbaselen = 0;
+
   /* space left over after actual output length */
   justlen = p->width
     - (strlen(s) + signlen + showbaselen + den_showbaselen + zeros);
